@@ -195,7 +195,23 @@ func (s *Server) Run(addr string, opt ...Option) error {
 		}
 		conn.disablePanicRecovery = s.disablePanicRecovery
 		localConnID := connID
+		// Stop holds the read lock from before it cancels the context until
+		// it has waited for all connections; so either this connection is
+		// added to the wait group before Stop waits, or the cancellation is
+		// seen here and the connection is closed without being served.
+		s.mu.Lock()
+		select {
+		case <-s.shutdownCtx.Done():
+			s.mu.Unlock()
+			_ = c.Close()
+			if s.onCloseHandler != nil {
+				s.onCloseHandler(localConnID)
+			}
+			return nil
+		default:
+		}
 		s.connWg.Add(1)
+		s.mu.Unlock()
 		go func() {
 			defer func() {
 				s.logger.Debug("connWg done", "op", op, "conn", localConnID)
